@@ -229,14 +229,35 @@ def run_session(base, sid, seed, two_docs, rounds, mutate_trace=None):
     trace_path = os.path.join(root, "trace.ndjson")
     sess = lsp.Session(root, env={"GLAS_VERIF_TRACE": trace_path, "GLAS_VERIF_SCHED": str(seed * 7919 + sid)},
                        stderr_path=os.path.join(root, "stderr.log"))
+    state = {"changes": 0}   # didOpen + didChange notifications sent so far
     quiesce_marks = []       # (server seq up to which everything happened, {doc: tok of the syntax tree text})
 
     def fail(features, detail):
         res.problems.append((dict(features), dict(detail, sid=sid, seed=seed, two_docs=two_docs, rounds=rounds)))
 
+    def settle(timeout=30.0):
+        """Wait until the hook trace shows that nothing is pending: every change went through the store and the database,
+        every spawned task returned, every diagnostics result was emitted and published.  (Silence on the wire alone
+        would be a wall-clock guess: on a loaded machine a task can be late by more than any fixed pause.)"""
+        end = time.time() + timeout
+        while time.time() < end:
+            sess.wait_quiet(quiet=0.15, timeout=5.0)
+            evs = read_trace(trace_path)
+            cnt = {}
+            for e in evs:
+                cnt[e["ev"]] = cnt.get(e["ev"], 0) + 1
+            spawned = {e["task"] for e in evs if e["ev"] == "Spawn"}
+            diags = {e["task"] for e in evs if e["ev"] == "Spawn" and e["label"].startswith("diag ")}
+            returned = {e["task"] for e in evs if e["ev"] == "TaskReturn"}
+            if (cnt.get("DocStoreUpdated", 0) == state["changes"] and cnt.get("ApplyEnd", 0) == cnt.get("ApplyBegin", 0) == state["changes"]
+                    and len(diags) == state["changes"] and spawned <= returned
+                    and cnt.get("DiagEmit", 0) == len(diags) and cnt.get("Publish", 0) == len(diags)) or not sess.alive():
+                return True
+        return False
+
     def quiesce(label):
         """wait until the server is quiet, read its texts back, remember where in the trace this is"""
-        sess.wait_quiet(quiet=0.35, timeout=30.0)
+        settle()
         toks = {}
         for d in docs:
             i = sess.new_id()
@@ -255,7 +276,7 @@ def run_session(base, sid, seed, two_docs, rounds, mutate_trace=None):
             if not same:
                 fail({"what": "text_diverged", "phase": label}, {"doc": d.name, "client_len": len(d.text),
                                                                 "server": r.get("error", r.get("result", ""))[:300]})
-        sess.wait_quiet(quiet=0.2, timeout=10.0)
+        settle(10.0)
         evs = read_trace(trace_path)
         quiesce_marks.append((evs[-1]["seq"] if evs else 0, toks))
         res.script.append(("quiesce", None, None, None, -1))
@@ -266,7 +287,8 @@ def run_session(base, sid, seed, two_docs, rounds, mutate_trace=None):
             raise vlib.ToolError("server did not answer initialize")
         for d in docs:                      # one at a time: the open phase is not part of the recorded race
             sess.did_open(d.path, d.text)
-            sess.wait_quiet(quiet=0.4, timeout=30.0)
+            state["changes"] += 1
+            settle()
         evs0 = read_trace(trace_path)
         start_seq = evs0[-1]["seq"] if evs0 else 0
         # what the open phase left as the last published diagnostics of each document (cancelled = empty list, F8b)
@@ -293,6 +315,7 @@ def run_session(base, sid, seed, two_docs, rounds, mutate_trace=None):
                                  "params": {"textDocument": {"uri": d.uri, "version": d.version}, "contentChanges": changes}})
                     res.script.append(("edit", d.name, d.tok(), None, res.batch))
                     res.nedit += 1
+                    state["changes"] += 1
                 else:
                     kind = rnd.choice(REQ_KINDS)
                     i = sess.new_id()
@@ -328,7 +351,8 @@ def run_session(base, sid, seed, two_docs, rounds, mutate_trace=None):
                                              "contentChanges": [{"range": {"start": a, "end": a}, "text": tail}]}}])
                 res.batch += 1
                 res.script.append(("edit", d.name, d.tok(), None, res.batch))
-                sess.wait_quiet(quiet=0.3, timeout=30.0)     # one document at a time: the probe itself must not race
+                state["changes"] += 1
+                settle()                                     # one document at a time: the probe itself must not race
             ok = quiesce("probe")
             for d in docs:
                 after = (sess.diagnostics_for(d.path) or [None])[-1]
@@ -695,7 +719,9 @@ def selftest(out, seed):
     i = first(lambda l: l["ev"] == "ReadVfs", len(lines) // 2)
     cases.append(("corrupt ReadVfs.tok", i, "set", ("tok", "d1#0"), i))
     i = first(lambda l: l["ev"] == "ApplyEnd", len(lines) // 3)
-    cases.append(("drop one ApplyEnd event", i, "drop", None, i))
+    main = ("Spawn", "DocStoreUpdated", "ApplyBegin", "ApplyEnd", "DiagEmit", "Publish", "Quiesce")
+    nxt = next(j for j in range(i + 1, len(lines)) if lines[j]["ev"] in main)
+    cases.append(("drop one ApplyEnd event (rejected at the main loop's next event)", i, "drop", None, nxt - 1))
     i = first(lambda l: l["ev"] == "TaskStart", len(lines) // 2)
     nxt = next(j for j in range(i + 1, len(lines)) if lines[j].get("t") == lines[i]["t"])
     cases.append(("drop one TaskStart event (rejected at the task's next event)", i, "drop", None, nxt - 1))
